@@ -42,6 +42,7 @@ type Solver struct {
 	timeout int // ms per query
 	log     io.Writer
 	Errors  int
+	Hung    int
 	dead    bool
 }
 
@@ -82,6 +83,17 @@ func NewSolver(kind string, timeoutMs int) (*Solver, error) {
 	s.send("(set-logic ALL)")
 	// bv2nat spelling differs: cvc5 1.0 and z3 both accept bv2nat.
 	return s, nil
+}
+
+// Restart replaces a dead solver process by a fresh one (all definitions and assertions are lost).
+func (s *Solver) Restart() error {
+	n, err := NewSolver(s.kind, s.timeout)
+	if err != nil {
+		return err
+	}
+	n.Queries, n.Time, n.Errors, n.Hung, n.log = s.Queries, s.Time, s.Errors, s.Hung, s.log
+	*s = *n
+	return nil
 }
 
 func (s *Solver) Close() {
@@ -512,16 +524,33 @@ func (s *Solver) Check() Verdict {
 	errBefore := s.Errors
 	s.send("(check-sat)")
 	var resp string
-	for {
-		resp = s.readResponse()
-		if strings.HasPrefix(resp, "(error") {
-			s.Errors++
-			if s.dead {
-				break
+	done := make(chan string, 1)
+	go func() {
+		var r string
+		for {
+			r = s.readResponse()
+			if strings.HasPrefix(r, "(error") {
+				s.Errors++
+				if s.dead {
+					break
+				}
+				continue
 			}
-			continue
+			break
 		}
-		break
+		done <- r
+	}()
+	select {
+	case resp = <-done:
+	case <-time.After(time.Duration(2*s.timeout+3000) * time.Millisecond):
+		// the solver ignored its own time limit: kill it; the caller restarts a fresh process
+		s.dead = true
+		s.Hung++
+		s.cmd.Process.Kill()
+		<-done
+		s.Queries++
+		s.Time += time.Since(start)
+		return Unknown
 	}
 	s.Queries++
 	s.Time += time.Since(start)
